@@ -136,6 +136,32 @@ def run(p, report, tier):
     nanidx = [n for n in ast.walk(g.node) if isinstance(n, ast.Assign) and c01.is_nan_expr(n.value) and rank
               and n.lineno > rank[0].lineno and "~" not in ast.unparse(n.targets[0])]
     report.add("R20.3", g.qual, "NaN utilities stay NaN through the rank transform", f"{g.file}:{g.node.lineno}", bool(nanidx))
+    # the annotator utilities added to the integer ranks must not be the caller's raw A_perf
+    from ..rawflow import RawFlow
+    sq = sa.methods.get("query")
+    if sq is None or "A_perf" not in sq.all_param_names():
+        raise AnalysisError("SingleAnnotatorWrapper.query(A_perf) vanished")
+    qparams = q.params()
+    if "annotator_utilities" not in qparams:
+        raise AnalysisError("_query_annotators(annotator_utilities) vanished")
+    pos = qparams.index("annotator_utilities") - (1 if qparams and qparams[0] == "self" else 0)
+
+    def sink(call, pos=pos):
+        if c01.callname(call) != "_query_annotators":
+            return []
+        out = [k.value for k in call.keywords if k.arg == "annotator_utilities"]
+        if len(call.args) > pos:
+            out.append(call.args[pos])
+        return out
+    rf = RawFlow(sq.node, "A_perf", sink).run()
+    if rf.sinks == 0:
+        raise AnalysisError("SingleAnnotatorWrapper.query: call of _query_annotators vanished")
+    report.add("R20.3", sq.qual, "annotator utilities handed to _query_annotators are not the raw A_perf",
+               f"{sq.file}:{(rf.hits[0][0] if rf.hits else sq.node).lineno}", not rf.hits,
+               detail="on every path A_perf is transformed (rescaled / replaced) before it is added to the ranks" if not rf.hits
+               else f"on the path where {rf.hits[0][2] or 'always'} the caller's A_perf reaches the sum with the integer "
+                    "ranks through value-preserving operations only (no rescaling into [0, 1)): it can reorder the "
+                    "samples the wrapped strategy ranked")
     funcs = [q]
     facts = {id(q.node): c01.FnFacts(q)}
     before = len(report.obligations)
